@@ -101,6 +101,12 @@ fn programs() -> Vec<Program> {
         p.thorough_only = true;
         v.push(p);
     }
+    // callers that really wait: a blocked await is only released by the wake-up of the acknowledgement, whether the command
+    // ran or was drained as 'shutting down'; the second program polls once from another context first (a timeout / select!
+    // around the acknowledgement), so the waker registered by the await replaces an earlier one
+    v.push(mk("put(b);await || shutdown", 1, vec![put(1, 2)], vec![vec![put(2, 2), Op::Await { call: 0 }], vec![Op::Shutdown]]));
+    v.push(mk("put(b);poll_once;await || shutdown", 1, vec![put(1, 2)], vec![vec![put(2, 2), Op::PollOnce { call: 0 }, Op::Await { call: 0 }], vec![Op::Shutdown]]));
+    v.push(mk("put(b);delete(a);poll_once(delete);await(delete) || shutdown (queue 1)", 1, vec![put(1, 2)], vec![vec![put(2, 2), del(1), Op::PollOnce { call: 1 }, Op::Await { call: 1 }], vec![Op::Shutdown]]));
     v
 }
 
